@@ -1549,7 +1549,7 @@ func (s *State) alignVRFs() {
 	}
 	routeVRF := func(c *cmd) string {
 		tokens := strings.Fields(c.parsed)
-		if tokens[2] == "vrf" {
+		if len(tokens) > 3 && tokens[2] == "vrf" {
 			return tokens[3]
 		}
 		return ""
